@@ -4,7 +4,7 @@
    Part C: the per-class rules of round 1 (still true, now subsumed by part A). *)
 From Coq Require Import ZArith QArith Qround Bool List.
 Require Import QV.C07.Model QV.C07.Spec QV.C07.Wf QV.C07.ProofsRange QV.C07.ProofsLoop QV.C07.ProofsAtoms
-               QV.C07.ProofsDur QV.C07.ProofsInt QV.C07.ProofsEnds QV.C07.ProofsIni QV.C07.ProofsFin QV.C07.ProofsWit.
+               QV.C07.ProofsDur QV.C07.ProofsInt QV.C07.ProofsEnds QV.C07.ProofsIni QV.C07.ProofsFin QV.C07.ProofsPad QV.C07.ProofsWit.
 Import ListNotations.
 Open Scope Q_scope.
 
@@ -42,6 +42,18 @@ Theorem C07_final_guarded : forall p rho pcs c e x v,
   denote p rho = Some pcs -> dget c (final_expr p) = Some e -> p_end pcs c = Some x -> eval rho e = Some v -> v == x.
 Proof. exact final_correct. Qed.
 Print Assumptions C07_final_guarded.
+
+(* the consequence clause of the property: padding a template to a longer duration (pad dd > 0, the evaluated final
+   values vs) yields the original pulse followed by a piece that holds, on every channel, exactly the voltage x the
+   unpadded pulse ends on; the duration grows by dd *)
+Theorem C07_pad_holds_end_voltage : forall p rho pcs d' dd vs c x,
+  wf p = true -> guard_C07_final_tail p rho = true -> denote p rho = Some pcs ->
+  eval rho (ESub d' (duration_expr p)) = Some dd -> Qle_bool dd 0 = false ->
+  opt_all (map (fun kv => option_map (fun q => (fst kv, q)) (eval rho (snd kv))) (final_expr p)) = Some vs ->
+  p_end pcs c = Some x ->
+  exists ppcs v, denote (pad_to p d') rho = Some ppcs /\ p_end ppcs c = Some v /\ v == x /\ total ppcs == total pcs + dd.
+Proof. exact pad_holds_end_voltage. Qed.
+Print Assumptions C07_pad_holds_end_voltage.
 
 (* atomic templates denote at most one piece (used for time dependent parallel channels) *)
 Theorem C07_atomic_single_piece : forall p rho pcs, atomic p = true -> denote p rho = Some pcs -> (length pcs <= 1)%nat.
